@@ -20,7 +20,7 @@ ASSUMPTIONS = [
     'handler tables are read through the internal names _handlers/_globals/_tasks (inconclusive if they disappear)',
     'a generator handler that yields None right after catching TimeoutError is not generated',
 ]
-REQUIRED = ['falsy_value_after_call', 'call_by_object', 'wait_by_object', 'wait_by_name', 'nested_call', 'sequential_calls', 'callee_raises_plain',
+REQUIRED = ['callee_on_explicit_channel', 'falsy_value_after_call', 'call_by_object', 'wait_by_object', 'wait_by_name', 'nested_call', 'sequential_calls', 'callee_raises_plain',
             'callee_generator_raises_first_step', 'callee_generator_raises_after_yield', 'callee_multi_handler', 'timeout_expired',
             'timeout_not_expired', 'timeout_zero', 'roots_in_flight_2plus', 'same_event_type_called_concurrently']
 REQUIRED_OBLIGATIONS = ['RESUME_ONCE', 'RESULT', 'AFTER_CALLEE', 'TIMEOUT_NOT_EARLY', 'CALLER_FEEDBACK', 'CALLER_VALUE', 'RESIDUE']
@@ -147,6 +147,8 @@ def evaluate(case, w, norm, before, after, comps):
         if gi < last or started != ended:
             detail.update({'resumed_at': gi, 'callee_last_step_at': last, 'callee_handlers_started': started, 'finished_before_resume': ended})
             problems.append(('AFTER_CALLEE', detail))
+    if any(h.get('channel') for h in case['handlers']):
+        marks.add('callee_on_explicit_channel')
     for h in case['handlers']:
         b_ = h['body']
         if any(a[0] == 'yieldlit' and i > 0 and b_[i - 1][0] in ('call', 'wait', 'waitname') for i, a in enumerate(b_)):
@@ -219,6 +221,12 @@ def corpus():
         HD(1, 'a', [['call', E('b')], ['yield', 'x'], ['wait', E('c')], ['waitname', E('d')], ['ret', 'end']], gen=True),
         HD(2, 'b', [['call', E('c')], ['ret', 'b']], gen=True), HD(3, 'c', [['ret', 'c1']]), HD(4, 'c', [['yield', 'c2'], ['yield', None], ['yield', 'c3']], gen=True, prio=1),
         HD(5, 'd', [['ret', 'd']])], 'fires': [E('a', flags=SF)]})
+    # callee on an explicit channel
+    cs.append({'name': 'callee-on-channel', 'handlers': [
+        HD(1, 'a', [['call', dict(E('b'), channels=['a'])], ['wait', dict(E('c'), channels=['a'])], ['ret', 'end']], gen=True),
+        dict(HD(2, 'b', [['yield', 'b1'], ['ret', 'b2']], gen=True), channel='a'), dict(HD(3, 'c', [['ret', 'c']]), channel='a'),
+        dict(HD(4, 'c', [['call', dict(E('b'), channels=['a'])], ['ret', 'c2']], gen=True, prio=1), channel='a')],
+        'fires': [E('a', flags=SF), E('a', flags=SF)]})
     # falsy (non-None) values relayed right after a call / wait, and a bare yield right after a call
     cs.append({'name': 'falsy-relay', 'handlers': [
         HD(1, 'a', [['call', E('b')], ['yieldlit', 0], ['wait', E('b')], ['yieldlit', ''], ['call', E('b')], ['yield', None], ['yieldlit', False]], gen=True),
@@ -306,6 +314,14 @@ def gen_case(rng):
                 if a[1]['name'] in seen:
                     a[0] = 'wait'
                 seen.add(a[1]['name'])
+    # some callee event types live on an explicit channel: their handlers listen there and every call/wait/fire addresses it
+    on_chan = {nm for lv in names for nm in names[lv] if rng.random() < 0.3}
+    for h in handlers:
+        if h['name'] in on_chan:
+            h['channel'] = 'a'
+        for a in h['body']:
+            if a[0] in ('call', 'wait', 'waitname', 'fire') and a[1]['name'] in on_chan:
+                a[1]['channels'] = ['a']
     fires = [{'name': rn, 'flags': {f: rng.random() < 0.6 for f in ('success', 'complete')}} for rn in roots]
     # names waited by name must not be fired by anybody else while the wait is open: drop plain fires/calls of them
     for h in handlers:
